@@ -1003,6 +1003,9 @@ def run(ctx):
                     perts = [('text', 'zz' if v != 'zz' else 'yy'), ('number', 12345)]
                     if not isinstance(v, bool):
                         perts.append(('logical', True))
+                    if isinstance(v, str) and v.swapcase() != v and not v.startswith('#'):
+                        # a text that differs only in the case of its letters, or by a trailing blank, is altered
+                        perts = [('text-case', v.swapcase()), ('text-blank', v + ' ')] + perts
                 else:
                     perts = [('2tol', v + 2 * t + (1 if tol is None else 0)), ('plus1', v + 1 + t),
                              ('text', 'zz'), ('half-tol', v + t / 2)]
